@@ -17,7 +17,8 @@ PARTIAL = ["removal of d-separated nodes before elimination (needs the global Ma
            "opt_einsum's greedy contraction path is trusted to be a contraction schedule; its result is compared"]
 RULE = ("random BNs of 1-6 nodes from shape classes (isolated, chain, collider, diamond, family, disconnected, G(n,p), tree), cards 1-3, "
         "label kinds int/str/permuted, CPD columns generic/zeros/deterministic/duplicated; disjoint (Q,E) with P(e)>0 checked exactly; "
-        "all elimination_order options x joint; non-trivial = network has an edge and (evidence or >1 node eliminated); distinct = case JSON")
+        "all elimination_order options x joint; non-trivial = network has an edge and (evidence or >1 node eliminated); distinct = case JSON"
+        " Also: 9-10 variable networks, rare evidence (0 < P(e) << 1e-8), empty evidence dicts, evidence dict checked unchanged, per-case insertion order of nodes / edges / CPDs.")
 ASSUMPTIONS = ["P(evidence) > 0 is established exactly by the Lean model before a case counts"]
 BUDGET_QUICK = 75
 
